@@ -1157,6 +1157,35 @@ func (env *SpecEnv) evalCall(e *ast.CallExpr) (TV, error) {
 		}
 		// divides(s, x): s > 0 divides x (SMT mod is the non-negative remainder, so this is x % s == 0 for every sign of x)
 		return TV{Eq(mk(SInt, "mod", b.t, a.t), IntLit(0)), boolT}, nil
+	case "floor":
+		// floor(x): the largest integer not above x, as a real
+		x, err := env.eval(e.Args[0])
+		if err != nil {
+			return TV{}, err
+		}
+		t := x.t
+		if t.sort == SInt {
+			return TV{mk(SReal, "to_real", t), types.Typ[types.Float64]}, nil
+		}
+		return TV{mk(SReal, "to_real", mk(SInt, "to_int", t)), types.Typ[types.Float64]}, nil
+	case "pow":
+		// pow(b, e): the uninterpreted power function the executor uses for math.Pow
+		b, err := env.eval(e.Args[0])
+		if err != nil {
+			return TV{}, err
+		}
+		x, err := env.eval(e.Args[1])
+		if err != nil {
+			return TV{}, err
+		}
+		toR := func(t T) T {
+			if t.sort == SInt {
+				return mk(SReal, "to_real", t)
+			}
+			return t
+		}
+		vc.ufun("real.pow", []Sort{SReal, SReal}, SReal)
+		return TV{mk(SReal, "real.pow", toR(b.t), toR(x.t)), types.Typ[types.Float64]}, nil
 	case "sqrt":
 		x, err := env.eval(e.Args[0])
 		if err != nil {
